@@ -48,7 +48,10 @@ class F:
 
     def __init__(self, name=None, uuid=None, in_tree=None, mem=(), fmem=(),
                  req=(), forb=(), res=None, raw_extra='', expect=200,
-                 version='1.39'):
+                 version='1.39', dup=None):
+        # dup = a class of res named a second time in the same `resources`
+        # value, with its own symbolic amount
+        self.dup = dup
         self.name, self.uuid, self.in_tree = name, uuid, in_tree
         self.mem = [list(m) for m in mem]      # each: any-of list of agg n
         self.fmem = list(fmem)                 # forbidden agg numbers
@@ -81,9 +84,11 @@ def qs_of(f, amounts):
     if f.forb:
         q.append('required=' + ','.join('!' + t for t in f.forb))
     if f.res:
-        q.append('resources=' + ','.join(
-            '%s:%s' % (rc, cands._tok('', rc, amounts[('', rc)]))
-            for rc in f.res))
+        ents = ['%s:%s' % (rc, cands._tok('', rc, amounts[('', rc)]))
+                for rc in f.res]
+        if f.dup:
+            ents.append('%s:$sdup' % f.dup)
+        q.append('resources=' + ','.join(ents))
     if f.raw_extra:
         q.append(f.raw_extra)
     return '/resource_providers?' + '&'.join(q)
@@ -109,6 +114,10 @@ def matches(cw, f, p, amounts):
         conds.append(Not(cw.has_trait(p, t)))
     for rc in f.res:
         conds.append(cw.fits(p, rc, amounts[('', rc)]))
+    if f.dup:
+        # "for each resources entry an inventory of that class with room for
+        # the amount": both entries of the class
+        conds.append(cw.fits(p, f.dup, amounts['dup']))
     return And(*conds)
 
 
@@ -162,7 +171,13 @@ def make_family(fname, topo, f, usage=False):
         with cands.CW(ctx, topo, usage=usage, naggs=3) as cw:
             q = cands.Query({'': cands.Group(f.res)})
             amounts = cands.amount_terms(ctx, q)
+            if f.dup:
+                amounts['dup'] = ctx.int('req_dup', 1, 2 ** 63 - 1)
+                ctx.data.setdefault('tokens', {})['$sdup'] = amounts['dup']
             r = app.call('GET', qs_of(f, amounts), version=f.version)
+            if f.dup and r.status == 400:
+                # refusing a class named twice is a legitimate answer
+                return finish(ctx, '400')
             if r.status != f.expect:
                 runner.violation(ctx, 'status', 'expected %d got %d: %s' % (
                     f.expect, r.status, (r.error_detail or '')[:200]),
@@ -206,6 +221,7 @@ def families(tier):
         ('resources', I, F(res={'VCPU': None})),
         ('resources-2', I, F(res={'VCPU': None, 'DISK_GB': 1})),
         ('resources-unknown-class', I, F(res={'CUSTOM_NOPE': 1}, expect=400)),
+        ('resources-class-twice', I, F(res={'VCPU': None}, dup='VCPU')),
         ('member_of', A, F(mem=[[1]])),
         ('member_of-in', A, F(mem=[[1, 2]])),
         ('member_of-not', A, F(fmem=[1])),
